@@ -1470,7 +1470,7 @@ func runRace(c raceCase, yieldSeed int64) map[int]string {
 			for j, f := range o.froms {
 				froms[j] = sharing.ID(f)
 			}
-			ctx, cancel := context.WithTimeout(context.Background(), 120*time.Second)
+			ctx, cancel := context.WithTimeout(context.Background(), 60*time.Second)
 			defer cancel()
 			res, err := v.ReceiveFrom(ctx, o.cid, froms...)
 			if err != nil && errors.Is(err, context.DeadlineExceeded) {
@@ -1514,9 +1514,13 @@ func evalRace(a vh.Args, res *vh.Result, cases []raceCase, procs []int) {
 		return
 	}
 	reported := 0
+	timeouts := 0
 	for _, p := range procs {
 		old := runtime.GOMAXPROCS(p)
 		for i, c := range cases {
+			if timeouts > 0 {
+				break // a receive that never returns costs a full timeout: one witness is enough
+			}
 			got := runRace(c, a.Seed+int64(p))
 			allowed := map[string][]string{}
 			for _, f := range strings.Fields(model[i]) {
@@ -1536,6 +1540,7 @@ func evalRace(a vh.Args, res *vh.Result, cases []raceCase, procs []int) {
 					key := "race-result-not-allowed"
 					if g == "timeout" {
 						key = "deadlock"
+						timeouts++
 					}
 					res.Mismatch(vh.Mismatch{ID: fmt.Sprintf("race-%d-%d", p, i), Kind: "corr", Key: key,
 						Detail:   fmt.Sprintf("GOMAXPROCS=%d: r%d returned %s; the model allows %v", p, rid, g, allowed[fmt.Sprintf("r%d", rid)]),
